@@ -14,6 +14,15 @@ if log and os.path.exists(log):
             name, rest = ln.split(': ', 1)
             prop, verdict = rest.split(' -> ', 1)
             caught.setdefault(name.strip(), []).append((prop.strip(), verdict.split()[0]))
+# verdicts of earlier self-test runs are kept for the changes the given log does not mention (the README is their record)
+old_readme = os.path.join(VERIF, 'seeded', 'README.md')
+previous = {}
+if os.path.exists(old_readme):
+    for ln in open(old_readme):
+        if ln.startswith('| C'):
+            cells = [c.strip() for c in ln.strip().strip('|').split(' | ')]
+            if len(cells) >= 5:
+                previous[cells[0]] = cells[-1]
 rows = []
 for d in sorted(glob.glob(os.path.join(VERIF, 'seeded', '*'))):
     if not os.path.isdir(d):
@@ -23,7 +32,7 @@ for d in sorted(glob.glob(os.path.join(VERIF, 'seeded', '*'))):
     c = caught.get(name, [])
     rows.append((name, m.get('property', '?'), str(m.get('what_it_breaks', '')).replace('\n', ' ').replace('|', '/')[:260],
                  str(m.get('needs_to_manifest', '')).replace('\n', ' ').replace('|', '/')[:260],
-                 ', '.join(f'{p}: {v}' for p, v in c) or 'not run'))
+                 ', '.join(f'{p}: {v}' for p, v in c) or previous.get(name, 'not run')))
 with open(os.path.join(VERIF, 'seeded', 'README.md'), 'w') as f:
     f.write('# Seeded changes kept for the self-test of the machinery\n\n'
             'Each directory holds `patch.diff` (applies to /repo HEAD with `git apply`), `demo.py` (exits 0 on the original, non-zero on\n'
